@@ -6,8 +6,8 @@ import (
 )
 
 func init() {
-	vrt.Register("C20_AppendVarint", VerifC20_AppendVarint)
-	vrt.Register("C20_ConsumeVarint", VerifC20_ConsumeVarint)
+	vrt.Register("VerifC20_AppendVarint", VerifC20_AppendVarint)
+	vrt.Register("VerifC20_ConsumeVarint", VerifC20_ConsumeVarint)
 }
 
 // AppendVarint(v) is byte-identical to the reference for every uint64, and decodes back.
